@@ -259,6 +259,9 @@ func (a Account) MarshalText() ([]byte, error) { return []byte(a.String()), nil 
 
 // UnmarshalText implements encoding.TextUnmarshaler.
 func (a *Account) UnmarshalText(b []byte) error {
+	if len(bytes.TrimPrefix(b, []byte("ed25519:"))) > len(a)*2 {
+		return fmt.Errorf("decoding ed25519:<hex> failed: input too long")
+	}
 	n, err := hex.Decode(a[:], bytes.TrimPrefix(b, []byte("ed25519:")))
 	if err != nil {
 		return fmt.Errorf("decoding ed25519:<hex> failed: %w", err)
